@@ -391,6 +391,9 @@ func init() {
 				case 7: // ms-scale delays: 100 consecutive failures cost well under a second
 					I, M = r.pick(1, 2), r.pick(4, 6)
 					mult = [][2]int{{2, 1}, {3, 1}, {3, 2}}[r.intn(3)]
+					if i < 3 {
+						mult = [][2]int{{2, 1}, {3, 1}}[r.intn(2)] // the always-present instance: I*m^100 leaves the int64 range
+					}
 					jit = [][2]int{{0, 1}, {1, 5}}[r.intn(2)]
 				case 8:
 					I, M = r.pick(1, 2), r.pick(10, 20)
@@ -404,7 +407,11 @@ func init() {
 				switch kind {
 				case 7: // a long outage: the cap region is exercised for dozens of consecutive attempts
 					p("schedule")
-					for k := 0; k < r.pick(60, 80, 100); k++ {
+					nfail := r.pick(60, 80, 100)
+					if i < 3 {
+						nfail = 100
+					}
+					for k := 0; k < nfail; k++ {
 						p("wait")
 						p("release fail")
 					}
@@ -413,6 +420,9 @@ func init() {
 					p("wait")
 				case 8: // the delay computation far out: attempt counter preset to 30 .. 1000 failures
 					n := r.pick(30, 40, 63, 64, 100, 1000)
+					if i < 3 {
+						n = 1000 // the always-present instance: far beyond any representable I*m^n
+					}
 					p("schedule")
 					p("pause")
 					fmt.Fprintf(w, "preset %d\n", n)
